@@ -148,6 +148,19 @@ func (w *World) run(op *Op) (interface{}, error) {
 	// ------------------------------------------------------------------ construction
 	case "New":
 		return w.construct(op)
+	case "NewOpt":
+		// a ConsOpt is a value the caller may keep and use for several tensors: each of them must be a tensor of its own
+		k := op.N & 3
+		if w.sopts[k] == nil {
+			dt := []string{"float64", "int", "float32", "bool"}[k]
+			switch k {
+			case 0, 1:
+				w.sopts[k] = []tensor.ConsOpt{tensor.FromScalar(mkScalar(dt, float64(3+k)))}
+			default:
+				w.sopts[k] = []tensor.ConsOpt{tensor.WithShape(2, 1+k), tensor.Of(dtOf(dt))}
+			}
+		}
+		return tensor.New(w.sopts[k]...), nil
 	case "Ones":
 		return tensor.Ones(dtOf(op.S), w.arg("shape", op.I)...), nil
 	case "I":
